@@ -73,7 +73,13 @@ def run_cases(modname, cases, nproc=16, hard_timeout_s=900, progress=True):
                 done.append(i)
             elif not p.is_alive():
                 p.join()
-                results[i] = ('error', f'worker exited with code {p.exitcode} without result')
+                if pc.poll(0.5):  # the worker sent its result and exited between the two checks above
+                    try:
+                        results[i] = pc.recv()
+                    except EOFError:
+                        results[i] = ('error', 'worker died without result')
+                else:
+                    results[i] = ('error', f'worker exited with code {p.exitcode} without result')
                 done.append(i)
             elif time.time() - ts > lim:
                 p.kill()
